@@ -5,6 +5,7 @@ import (
 	"errors"
 	"fmt"
 	"io"
+	"os"
 	"regexp"
 	"runtime"
 	"strings"
@@ -72,7 +73,12 @@ var scratchRoot string // replaced by a token in error text
 var scrubAddrs = true
 var addrRe = regexp.MustCompile(`0xc[0-9a-f]{9}`)
 
+var scrubPid = fmt.Sprintf("/fsroot/p%d/", os.Getpid())
+
 func scrub(s string) string {
+	if strings.Contains(s, scrubPid) {
+		s = strings.ReplaceAll(s, scrubPid, "/fsroot/")
+	}
 	if scratchRoot != "" {
 		s = strings.ReplaceAll(s, scratchRoot, "$SCRATCH")
 	}
